@@ -11,6 +11,8 @@ for f in sorted(glob.glob(os.path.join(VERIF, 'seeded', '*', '*', 'meta.json')))
         how = 'tie/corr.' if 'no-failing-input-found' in own['violation'][0] else 'input'
     else:
         how = 'MISSED' if own else 'n/a'
+    if m.get('final_own_check'):
+        how = m['final_own_check']
     others = ' '.join(p for p in m.get('caught_by', []) if p != pid) or '—'
     rows.append('| %s m%s | %s | %s | %s | %s |' % (pid, m.get('mutant'), ', '.join(os.path.basename(x) for x in m.get('files', [])),
                                                  m.get('summary', '')[:170].replace('|', '/').replace('\n', ' '), how, others))
